@@ -360,6 +360,8 @@ def follow_collection(fn, node, pm, chain):
                 return Consumer("ok", "only `%s` of the sequence is used" % par["name"], par, chain)
             if par["name"] == "next" and not par["args"]:
                 nm = _seeds_total_incumbent(fn, par, pm) or _seeds_total_fold(fn, par, pm)
+                if nm and nm.startswith("inline:"):
+                    return Consumer("undecided", "the first element seeds an incumbent that gives way under comparisons of value and key written out in the loop: not evaluated", par, chain)
                 if nm:
                     return Consumer("ok", "the first element only seeds an incumbent that is replaced under the total predicate `%s`" % nm, par, chain)
             if par["name"] in ("fold", "reduce") and _fold_integer_commutative(fn, par):
@@ -518,8 +520,32 @@ def _seeds_total_incumbent(fn, nxt, pm):
             cur = par
             continue
         break
-    if par.get("k") != "LetStmt" or par["pat"].get("k") != "Bind":
+    if par.get("k") != "LetStmt":
         return None
+    if par["pat"].get("k") != "Bind":
+        # `let (mut best_key, mut best_w) = it.next().unwrap();`: every component is an incumbent
+        lids = set(b["local"] for b in pat_bindings(par["pat"]))
+        assigns = [y for y in walk(fn["body"]) if y.get("k") == "Assign" and peel_refs(y["l"]).get("k") == "Path" and peel_refs(y["l"]).get("local") in lids]
+        if not lids or not assigns:
+            return None
+        for a in assigns:
+            loop, q = None, pm.get(id(a))
+            while q is not None:
+                if q.get("k") == "Loop":
+                    loop = q
+                    break
+                q = pm.get(id(q))
+            if loop is None:
+                return None
+            inner = strip(loop["body"]["e"] if loop["body"].get("e") else (loop["body"]["stmts"][0] if loop["body"]["stmts"] else {}))
+            ids = set()
+            if inner and inner.get("k") == "Match":
+                for arm in inner["arms"]:
+                    if arm["pat"]["k"] in ("TupleStruct", "Struct"):
+                        ids |= set(b["local"] for b in pat_bindings(arm["pat"]))
+            if not _inline_key_tiebreak(fn, a, loop["body"], ids):
+                return None
+        return "inline:value-then-key"
     lid = par["pat"]["local"]
     assigns = [y for y in walk(fn["body"]) if y.get("k") == "Assign" and peel_refs(y["l"]).get("k") == "Path" and peel_refs(y["l"]).get("local") == lid]
     if not assigns:
@@ -592,7 +618,7 @@ def follow_binding(fn, let, pm, chain):
             verdicts.append(follow_collection(fn, u, pm, chain + "->" + binds[0]["name"]))
     if not verdicts:
         return Consumer("ok", "binding never used", let, chain)
-    for want in ("order", "unclassified", "derived"):
+    for want in ("order", "unclassified", "derived", "undecided"):
         for v in verdicts:
             if v.verdict == want:
                 return v
@@ -716,6 +742,52 @@ def _total_predicate_near(fn, assign, body):
     return None
 
 
+def _inline_key_tiebreak(fn, assign, body, loop_ids):
+    """`if w > best_w || (w == best_w && key < best_key) { best_key = key; best_w = w }` written out in the loop body
+    (possibly through a flag local or a `match` on partial_cmp): the replacement of the incumbent is governed by
+    comparisons of *two* different loop bindings (value and key) with the outer locals that are assigned from exactly
+    those bindings under the same test.  Whether the predicate decides every pair consistently is not evaluated here:
+    the caller reports the site as undecided instead of order-sensitive."""
+    ifs = [n for n in walk(body) if n.get("k") == "If" and any(x is assign for x in walk(n["then"]))]
+    if not ifs:
+        return False
+    iff = ifs[-1]
+    incumbent = {}        # outer local -> loop binding it is assigned from under this test
+    for y in walk(iff["then"]):
+        if y.get("k") == "Assign":
+            l, r_ = peel_refs(y["l"]), peel_refs(y["r"])
+            if l.get("k") == "Path" and "local" in l and r_.get("k") == "Path" and r_.get("local") in loop_ids:
+                incumbent[l["local"]] = r_["local"]
+    if len(set(incumbent.values())) < 2:
+        return False
+    lets = {}
+    for y in walk(body):
+        if y.get("k") == "LetStmt" and y.get("init") is not None and y["pat"].get("k") == "Bind":
+            lets[y["pat"]["local"]] = y["init"]
+    exprs, seen = [iff["c"]], set()
+    compared = set()
+    while exprs:
+        e = exprs.pop()
+        for y in walk(e):
+            if y.get("k") == "Path" and y.get("local") in lets and y["local"] not in seen:
+                seen.add(y["local"])
+                exprs.append(lets[y["local"]])
+            sides = None
+            if y.get("k") == "Binary" and y["op"] in ("<", ">", "<=", ">=", "==", "!="):
+                sides = (y["l"], y["r"])
+            elif y.get("k") == "MethodCall" and y["name"] in ("cmp", "partial_cmp", "lt", "gt", "le", "ge", "total_cmp") and len(y["args"]) == 1:
+                sides = (y["recv"], y["args"][0])
+            if sides is None:
+                continue
+            a, b = root_local(sides[0]), root_local(sides[1])
+            if a is None or b is None:
+                continue
+            for x_, y_ in ((a, b), (b, a)):
+                if x_["local"] in loop_ids and incumbent.get(y_["local"]) == x_["local"]:
+                    compared.add(x_["local"])
+    return len(compared) >= 2
+
+
 def _sorted_right_after(fn, local, loop_body):
     """the first use of `local` after the loop is a sort that is total on the entries (unique key as tie-break)"""
     end = max([y.get("ln") or 0 for y in walk(loop_body)] or [0])
@@ -795,6 +867,7 @@ def classify_effects(fn, body, loop_ids, node, chain):
             for b in pat_bindings(n["pat"]):
                 declared.add(b["local"])
     problems = []
+    inline_selection = []
     for n in walk(body):
         k = n.get("k")
         if k in ("Assign", "AssignOp"):
@@ -809,6 +882,9 @@ def classify_effects(fn, body, loop_ids, node, chain):
                 continue
             if k == "Assign" and _total_predicate_near(fn, n, body):
                 continue  # an incumbent replaced under a predicate that decides every pair of entries (value, then key)
+            if k == "Assign" and _inline_key_tiebreak(fn, n, body, set(loop_ids)):
+                inline_selection.append(n)
+                continue  # .. or under comparisons of value and key written out in place: not evaluated (undecided)
             problems.append("write to outer state `%s` (%s)" % (r.e(n["l"])[:60], "float accumulation" if k == "AssignOp" else "assignment"))
         elif k == "MethodCall":
             name = n["name"]
@@ -833,6 +909,8 @@ def classify_effects(fn, body, loop_ids, node, chain):
                 problems.append("early exit `%s` depends on which entry is visited first" % k.lower())
     if problems:
         return Consumer("order", "loop body is order-sensitive: " + "; ".join(sorted(set(problems))[:3]), node, chain)
+    if inline_selection:
+        return Consumer("undecided", "the loop keeps an incumbent that gives way under comparisons of both the value and the key of the entry, written out in the loop body: that they decide every pair the same way round was not evaluated", node, chain)
     return Consumer("ok", "loop body only makes per-entry / keyed / integer-commutative updates", node, chain)
 
 
